@@ -272,6 +272,7 @@ func Lock(m TryLocker) {
 				if n > lim {
 					panic(LockStuck{n})
 				}
+				Tick() // a global loop budget, when armed, bounds all waiters together
 				runtime.Gosched()
 			}
 			return
